@@ -17,6 +17,7 @@ import (
 	"encoding/base64"
 	"encoding/hex"
 	"go/types"
+	"strconv"
 )
 
 func init() {
@@ -76,4 +77,89 @@ func init() {
 		return fr.ex.mkStruct("github.com/go-redsync/redsync/v4/redis", "Script", map[string]value{"KeyCount": a[0], "Src": a[1], "Hash": "-"})
 	})
 	_ = types.Typ
+}
+
+// io.Reader over bytes and json.Decoder: the reader is its content, the decoder
+// is (content, UseNumber); one Decode consumes the whole content (one value).
+type jsonDecoder struct {
+	src       value
+	useNumber bool
+}
+
+func init() {
+	newReader := func(path, name string) externalFn {
+		return func(fr *frame, a []value) value {
+			ex := fr.ex
+			h := ex.newOpaque(path, name)
+			if ex.readers == nil {
+				ex.readers = map[*value]value{}
+			}
+			ex.readers[h] = a[0]
+			return h
+		}
+	}
+	reg("bytes.NewReader", newReader("bytes", "Reader"))
+	reg("bytes.NewBuffer", newReader("bytes", "Buffer"))
+	reg("bytes.NewBufferString", newReader("bytes", "Buffer"))
+	reg("strings.NewReader", newReader("strings", "Reader"))
+	reg("encoding/json.NewDecoder", func(fr *frame, a []value) value {
+		ex := fr.ex
+		src, ok := a[0].(iface)
+		var data value
+		if ok {
+			if p, isPtr := src.v.(*value); isPtr {
+				data = ex.readers[p]
+			}
+		}
+		if data == nil {
+			ex.unsupported("json.NewDecoder over a reader that is not a modelled in-memory reader")
+		}
+		h := ex.newOpaque("encoding/json", "Decoder")
+		if ex.decoders == nil {
+			ex.decoders = map[*value]*jsonDecoder{}
+		}
+		ex.decoders[h] = &jsonDecoder{src: data}
+		return h
+	})
+	reg("(*encoding/json.Decoder).UseNumber", func(fr *frame, a []value) value {
+		fr.ex.decoders[a[0].(*value)].useNumber = true
+		return nil
+	})
+	reg("(*encoding/json.Decoder).DisallowUnknownFields", func(fr *frame, a []value) value { return nil })
+	reg("(*encoding/json.Decoder).Decode", func(fr *frame, a []value) value {
+		ex := fr.ex
+		d := ex.decoders[a[0].(*value)]
+		if d == nil {
+			ex.unsupported("json.Decoder not created by json.NewDecoder")
+		}
+		ex.jsonUseNumber = d.useNumber
+		defer func() { ex.jsonUseNumber = false }()
+		data := d.src
+		if s, isStr := data.(string); isStr {
+			bs := make([]value, len(s))
+			for i := range bs {
+				bs[i] = s[i]
+			}
+			data = bs
+		}
+		return ex.jsonUnmarshal(fr, data, a[1].(iface))
+	})
+}
+
+func init() {
+	reg("(encoding/json.Number).String", func(fr *frame, a []value) value { return a[0] })
+	reg("(encoding/json.Number).Float64", func(fr *frame, a []value) value {
+		f, e := strconv.ParseFloat(strArg(fr, a[0]), 64)
+		if e != nil {
+			return tuple{f, fr.ex.mkError(e.Error())}
+		}
+		return tuple{f, iface{}}
+	})
+	reg("(encoding/json.Number).Int64", func(fr *frame, a []value) value {
+		i, e := strconv.ParseInt(strArg(fr, a[0]), 10, 64)
+		if e != nil {
+			return tuple{i, fr.ex.mkError(e.Error())}
+		}
+		return tuple{i, iface{}}
+	})
 }
